@@ -40,7 +40,9 @@ class Searches:
         typed_haystack = Nodes.typed_value(haystack)
         typed_needle = Nodes.typed_value(needle)
         needle_type = type(typed_needle)
-        haystack_text = str(haystack)
+        haystack_text = (str(typed_haystack)
+                         if isinstance(typed_haystack, bool)
+                         else str(haystack))
         matches: bool = False
 
         if method is PathSearchMethods.EQUALS:
